@@ -43,6 +43,19 @@ Supported subset (anything else fails)
                (py_alloc), the value is its index; `self._d = {}`, `self._d[k] = obj`, `self._d[k]` for a dict attribute
                name -> stream object (info_set / info_get, KeyError when absent); str literals (their code points);
                `super().__init__(..)` of a translated base class inside __init__
+  helpers      a call `f(args)` of a module-level function bound exactly once, or `self._h(args)` of a method of the same
+               class that is not part of the translated interface, is translated AT THE CALL SITE: the arguments are
+               evaluated first (left to right) and bound to the parameters in a scope of their own, `return` in the
+               helper continues after the call with its value, what the helper's guards established about the
+               arguments holds afterwards; refused: recursion, *args / **kwargs / defaults / keyword arguments,
+               decorated or nested functions, `self` in a module-level helper, more than 4 levels
+  control flow the translation is in continuation-passing style, so guard clause + early return and nested if / else give
+               the same Gallina text up to the nesting of the tests; `a and b` / `a or b` (short circuit, operands bools),
+               `x if c else y`, `continue`, `if` inside the body of a loop over a str, isinstance with a tuple of classes
+               that denotes one class of the universe, locals holding `d.get(k)` (`is None` then tells what d holds),
+               names for the current item inside a loop over a dict, "..." + "..." in exception messages;
+               the extra parameters of a definition (clock, Random() state) are ordered by kind and source position,
+               not by the order of traversal
   defaults     the default value of a parameter is part of the translation (gen_<C>_<m>__default_<p>): it is evaluated
                once, at definition time, so only the immutable `None` is accepted -- an object built there would be
                shared by every call that omits the argument
@@ -153,6 +166,7 @@ PARAMS = {
 }
 # a parameter default is evaluated ONCE, at definition time: only the immutable `None` is modelled
 DEFAULT_NONE = {"SeedArg": "SeedNone", "ObjArg": "SNone"}
+ENV_STEMS = ["env_clock", "env_newgen", "env_blank"]
 GTYPE = {"Z": "Z", "B": "bool", "F": "Z", "G": "gstate", "GS": "gstate", "None": "unit",
          "SeedArg": "pyseed", "Bound": "pybound", "StateArg": "pystate",
          "Key": "pykey", "Stream": "pystream", "Repl": "repl", "Dict": "list entry",
@@ -319,6 +333,7 @@ class Env:
         e.fields, e.ro, e.locals = dict(self.fields), dict(self.ro), dict(self.locals)
         e.facts, e.base, e.dirty, e.memo, e.entry = self.facts, self.base, self.dirty, dict(self.memo), self.entry
         e.store, e.sup = self.store, self.sup
+        e.noself = getattr(self, "noself", False)
         return e
 
     def plus(self, facts):
@@ -337,8 +352,12 @@ class Ctx:
         self.ret = set()
         self.binders = []          # extra binders in order of first use: (name, type)
         self.envs = {}
+        self.env_pos = {}
         self.pure = 0              # > 0: inside the body of a fold over a str
         self.loop = 0              # > 0: inside a loop body (no return, no assignment to self)
+        self.returns = []          # inlined helper calls in progress: (helper name, handler(node, value, env), loop depth at the call)
+        self.loop_ends = []        # loops in progress: handler(env) for `continue` / the end of the body
+        self.inlined = []          # helpers whose bodies were translated at a call site: (name, first line, last line, sha1)
 
     def fresh(self, stem):
         stem = ident(stem)
@@ -351,7 +370,15 @@ class Ctx:
         if key not in self.envs:
             self.envs[key] = self.fresh(stem)
             self.need(self.envs[key], ty)
+            self.env_pos[self.envs[key]] = (ENV_STEMS.index(stem) if stem in ENV_STEMS else len(ENV_STEMS), stem, node.lineno, node.col_offset)
         return self.envs[key]
+
+    def ordered_binders(self):
+        """the extra parameters in an order that does not depend on the order in which the body was traversed: raw and
+        function parameters first, then what the environment supplies by kind and place in the source"""
+        first = [b for b in self.binders if b[0] not in self.env_pos]
+        rest = sorted((b for b in self.binders if b[0] in self.env_pos), key=lambda b: self.env_pos[b[0]])
+        return first + rest
 
     def need(self, name, ty):
         if (name, ty) not in self.binders:
@@ -378,6 +405,9 @@ class Translator:
     # ------------------------------------------------------------------ module level
     def module_checks(self):
         self.imports = {}
+        self.functions = {}        # module-level functions bound exactly once (candidates for inlining at their call sites)
+        self.rebound = set()       # module-level functions whose name is bound more than once: a call of them is not resolved
+        defs, nbind = {}, {}
         for st in self.tree.body:
             names = []
             if isinstance(st, ast.Import):
@@ -412,6 +442,8 @@ class Translator:
                     if st.name in self.classes:
                         self.fail(st, f"class {st.name} defined twice")
                     self.classes[st.name] = st
+                else:
+                    defs.setdefault(st.name, st)
             elif isinstance(st, (ast.Assign, ast.AnnAssign, ast.AugAssign)):
                 tg = st.targets if isinstance(st, ast.Assign) else [st.target]
                 for t in tg:
@@ -429,6 +461,12 @@ class Translator:
                     self.fail(st, f"module rebinds the name `{n}`")
                 if n in CLASSES and not isinstance(st, ast.ClassDef):
                     self.fail(st, f"module rebinds the class name `{n}`")
+                nbind[n] = nbind.get(n, 0) + 1
+        for n, st in defs.items():
+            if nbind.get(n, 0) == 1:
+                self.functions[n] = st
+            else:
+                self.rebound.add(n)
 
     def class_checks(self, cname):
         spec = CLASSES[cname]
@@ -556,6 +594,7 @@ class Translator:
             name = f"gen_{cname}_{mname}"
             ftype = frame[1] if frame[0] == "self" else (f"(list stream * {frame[1]})" if frame[0] == "wself"
                                                          else GTYPE[dict(declared)[frame[1]]])
+            ctx.binders = ctx.ordered_binders()
             bl = [f"({b} : {t})" for b, t in ctx.binders]
             if frame[0] == "self":
                 bl.append(f"(s : {frame[1]})")
@@ -575,9 +614,10 @@ class Translator:
             sig = {"name": name, "params": declared, "binders": list(ctx.binders), "ret": rkind, "cls": cname,
                    "module": spec["module"], "defaults": [f"{name}__default_{ident(pn)}" for pn, _t, _v in defaults]}
             self.sigs[key] = sig
-            src_lines = self.lines[f.lineno - 1:f.end_lineno]
+            src_lines = self.lines[f.lineno - 1:f.end_lineno] + [h[3] for h in ctx.inlined]
             self.translated.append({"class": cname, "method": mname, "definition": name, "module": spec["module"],
                                     "lines": [f.lineno, f.end_lineno], "result_kind": rkind,
+                                    "inlined_helpers": [{"helper": h[0], "lines": [h[1], h[2]]} for h in ctx.inlined],
                                     "defaults": {pn: val for pn, _t, val in defaults},
                                     "sha1": hashlib.sha1("\n".join(src_lines).encode("utf-8")).hexdigest()})
             return sig
@@ -641,11 +681,20 @@ class Translator:
         if isinstance(s, ast.Raise):
             return self.raise_(s, env, self.exc_name(s))
         if isinstance(s, ast.Return):
+            if self.ctx.returns and self.ctx.loop == self.ctx.returns[-1][2]:
+                handler = self.ctx.returns[-1][1]        # the end of an inlined helper: the call's continuation
+                if s.value is None:
+                    return handler(s, V("None", "tt"), env)
+                return self.expr(s.value, env, lambda v, e2: handler(s, v, e2))
             if self.ctx.loop:
                 self.fail(s, "return inside a loop body")
             if s.value is None:
                 return self.ret(s, V("None", "tt"), env)
             return self.expr(s.value, env, lambda v, e2: self.ret(s, v, e2))
+        if isinstance(s, ast.Continue):
+            if not self.ctx.loop_ends or (self.ctx.returns and self.ctx.returns[-1][3] == len(self.ctx.loop_ends)):
+                self.fail(s, "continue outside a translated loop")
+            return self.ctx.loop_ends[-1](env)
         if isinstance(s, ast.Assign):
             if len(s.targets) != 1:
                 self.fail(s, "multiple assignment targets")
@@ -718,15 +767,20 @@ class Translator:
         if s.cause is not None or e is None:
             self.fail(s, "raise without exception / raise ... from")
         if isinstance(e, ast.Call) and isinstance(e.func, ast.Name) and not e.keywords:
-            for a in e.args:
+            def harmless_text(a):
                 if isinstance(a, ast.Constant) and isinstance(a.value, str):
-                    continue
+                    return True
                 if isinstance(a, ast.JoinedStr) and all(
                         isinstance(p, ast.Constant) or (isinstance(p, ast.FormattedValue) and isinstance(p.value, ast.Name)
                                                          and p.format_spec is None and p.conversion == -1)
                         for p in a.values):
-                    continue          # formatting a name with str() is taken not to raise
-                self.fail(a, "exception argument that is not a string literal")
+                    return True       # formatting a name with str() is taken not to raise
+                if isinstance(a, ast.BinOp) and isinstance(a.op, ast.Add):
+                    return harmless_text(a.left) and harmless_text(a.right)      # "..." + "..."
+                return False
+            for a in e.args:
+                if not harmless_text(a):
+                    self.fail(a, "exception argument that is not a string literal")
             nm = e.func.id
         elif isinstance(e, ast.Name):
             nm = e.id
@@ -775,11 +829,15 @@ class Translator:
                     v = self.as_name(node, v, env)
                 else:
                     v = self.as_int(node, v, env)
-            if v.ty not in ("Z", "F", "B", "Str", "L", "GS", "None"):
+            if v.ty in ("EStream", "EKey") and env.entry is not None:
+                e2 = env.clone()                # another name for the current item of the loop (followed when the item changes)
+                e2.locals[target.id] = v
+                return k(e2)
+            if v.ty not in ("Z", "F", "B", "Str", "L", "GS", "None", "OptL", "Ref"):
                 self.fail(node, f"value of kind {v.ty} assigned to a local")
             e2 = env.clone()
-            if v.const is not None or v.tx.isidentifier():
-                e2.locals[target.id] = v
+            if v.const is not None or v.tx.isidentifier() or v.ty == "OptL":
+                e2.locals[target.id] = v          # (a dict lookup is kept as it is: `x is None` then tells what the dict holds)
                 return k(e2)
             nm = self.ctx.fresh("v_" + target.id)
             e2.locals[target.id] = V(v.ty, nm, extra=v.extra)
@@ -821,13 +879,19 @@ class Translator:
             it = self.as_name(s, it, env)
         if it.ty != "Str":
             self.fail(s, f"loop over a value of kind {it.ty} (only a str or a dict of streams is iterated)")
-        for st in s.body:
-            if not isinstance(st, (ast.Assign, ast.AnnAssign, ast.AugAssign, ast.Pass)):
-                self.fail(st, f"statement {type(st).__name__} in the body of a loop over the characters of a str")
-            tg = st.targets if isinstance(st, ast.Assign) else ([st.target] if not isinstance(st, ast.Pass) else [])
-            for t in tg:
-                if not isinstance(t, ast.Name):
-                    self.fail(st, "assignment to something else than a local in the body of a loop over a str")
+        def check_body(stmts):
+            for st in stmts:
+                if isinstance(st, ast.If):
+                    check_body(st.body)
+                    check_body(st.orelse)
+                    continue
+                if not isinstance(st, (ast.Assign, ast.AnnAssign, ast.AugAssign, ast.Pass, ast.Continue)):
+                    self.fail(st, f"statement {type(st).__name__} in the body of a loop over the characters of a str")
+                tg = st.targets if isinstance(st, ast.Assign) else ([st.target] if isinstance(st, (ast.AnnAssign, ast.AugAssign)) else [])
+                for t in tg:
+                    if not isinstance(t, ast.Name):
+                        self.fail(st, "assignment to something else than a local in the body of a loop over a str")
+        check_body(s.body)
         names = self.assigned_names(s.body)
         if s.target.id in names:
             self.fail(s, "the loop variable is assigned in the loop body")
@@ -849,10 +913,12 @@ class Translator:
                 self.fail(s, f"loop-carried local `{cname}` changes kind from {init.ty} to {v.ty}")
             return self.text(v)
         self.ctx.pure += 1
+        self.ctx.loop_ends.append(done)
         try:
             body = self.block(s.body, body_env, done)
         finally:
             self.ctx.pure -= 1
+            self.ctx.loop_ends.pop()
         res = self.ctx.fresh("v_" + cname)
         e2 = env.clone()
         e2.locals[cname] = V(init.ty, res)
@@ -869,22 +935,27 @@ class Translator:
         frame = CLASSES[self.ctx.cls]["frame"]
         if not (frame[0] == "param" and frame[1] == dname):
             self.fail(s, f"loop over the dict `{dname}`, which is not the object the method changes")
-        names = self.assigned_names(s.body)
-        if names:
-            self.fail(s, f"assignment to {names} in the body of a loop over a dict of streams")
+        names = [n for n in self.assigned_names(s.body) if n != s.target.id]
+        carried = [n for n in names if n in env.locals]
+        if carried:
+            self.fail(s, f"assignment to {carried} (bound before the loop) in the body of a loop over a dict of streams: "
+                         "a loop-carried local is not folded there")
         ev = self.ctx.fresh("e")
         body_env = env.clone()
         body_env.locals[s.target.id] = V("EKey", f"(key_of {ev})", extra=ev)
         body_env.entry = (s.target.id, ev, ev, dname)
         self.ctx.loop += 1
+        self.ctx.loop_ends.append(lambda e: f"({e.entry[2]}, Ret tt)")
         try:
             body = self.block(s.body, body_env, lambda e: f"({e.entry[2]}, Ret tt)")
         finally:
             self.ctx.loop -= 1
+            self.ctx.loop_ends.pop()
         d1, r1, x1 = self.ctx.fresh("d"), self.ctx.fresh("r"), self.ctx.fresh("x")
         e2 = env.clone()
         e2.locals[dname] = V("Dict", d1)
-        e2.locals.pop(s.target.id, None)
+        for n in names + [s.target.id]:
+            e2.locals.pop(n, None)              # bound only if the loop ran: not available afterwards
         return (f"let '({d1}, {r1}) :=\n"
                 f"  py_for_entries (fun {ev} : entry =>\n{ind(body, 6)})\n"
                 f"    {env.locals[dname].tx} in\n"
@@ -973,6 +1044,8 @@ class Translator:
                 return k(env.locals[e.id], env)
             self.fail(e, f"name `{e.id}` (not a parameter or a local assigned on every path before)")
         if isinstance(e, ast.Attribute):
+            if isinstance(e.value, ast.Name) and e.value.id == "self" and getattr(env, "noself", False):
+                self.fail(e, "`self` inside a module-level helper")
             if isinstance(e.value, ast.Name) and e.value.id == "self" and "self" not in env.locals:
                 if e.attr in env.fields:
                     return k(env.fields[e.attr], env)
@@ -1000,9 +1073,12 @@ class Translator:
             self.fail(e, f"unary operator {type(e.op).__name__}")
         if isinstance(e, ast.BinOp):
             return self.expr(e.left, env, lambda a, e1: self.expr(e.right, e1, lambda b, e2: self.arith(e, a, b, e2, k)))
-        if isinstance(e, ast.Compare) or (isinstance(e, ast.Call) and isinstance(e.func, ast.Name)
-                                          and e.func.id == "isinstance" and "isinstance" not in env.locals):
+        if isinstance(e, (ast.Compare, ast.BoolOp)) or (isinstance(e, ast.Call) and isinstance(e.func, ast.Name)
+                                                        and e.func.id == "isinstance" and "isinstance" not in env.locals):
             return self.bool_value(e, env, lambda v, ft, ff, e2: k(v, e2))
+        if isinstance(e, ast.IfExp):
+            # a if c else b: c first, then only the chosen one (the rest of the statement is translated once per branch)
+            return self.cond(e.test, env, lambda e1: self.expr(e.body, e1, k), lambda e1: self.expr(e.orelse, e1, k))
         if isinstance(e, ast.Dict):
             if e.keys:
                 self.fail(e, "dict literal that is not empty")
@@ -1075,6 +1151,30 @@ class Translator:
     CMPOPS = {ast.Lt: "<", ast.Gt: ">", ast.LtE: "<=", ast.GtE: ">=", ast.Eq: "==", ast.NotEq: "!="}
 
     def bool_value(self, e, env, k):
+        if isinstance(e, ast.BoolOp):
+            # short circuit, left to right: `a and b` is `b if a else False`, `a or b` is `True if a else b` (operands are
+            # bools here, so the value of the expression is the truth value); what follows is translated once per outcome
+            is_and = isinstance(e.op, ast.And)
+            first, rest = e.values[0], e.values[1:]
+            more = rest[0] if len(rest) == 1 else ast.copy_location(ast.BoolOp(op=e.op, values=rest), e)
+
+            def after_first(v, ft, ff, e1):
+                if v.ty != "B":
+                    self.fail(e, f"`and` / `or` on a value of kind {v.ty} (only bools)")
+                decided = V("B", const=not is_and)
+
+                def go_on(e2):
+                    gained = ft if is_and else ff
+                    return self.bool_value(more, e2, lambda v2, ft2, ff2, e3: k(
+                        v2, (set(ft2) | set(gained)) if is_and else ft2, ff2 if is_and else (set(ff2) | set(gained)), e3))
+
+                def stop(e2):
+                    return k(decided, set(), set(), e2)
+                if v.const is not None:
+                    return (go_on if v.const == is_and else stop)(e1.plus(ft if v.const else ff))
+                kt, kf = (go_on, stop) if is_and else (stop, go_on)
+                return (f"if {v.tx} then\n{ind(block_text(kt(e1.plus(ft))))}\nelse\n{ind(block_text(kf(e1.plus(ff))))}")
+            return self.bool_value(first, env, after_first)
         if isinstance(e, ast.UnaryOp) and isinstance(e.op, ast.Not):
             def neg(v, ft, ff, e2):
                 if v.const is not None:
@@ -1102,8 +1202,15 @@ class Translator:
                 self.fail(e, "isinstance of something else than a parameter")
             p = env.locals[e.args[0].id]
             t = e.args[1]
+            if isinstance(t, ast.Tuple) and t.elts and all(isinstance(x, ast.Name) for x in t.elts):
+                ids = {x.id for x in t.elts}
+                if "int" in ids:
+                    ids.discard("bool")                   # bool is a subclass of int
+                if len(ids) != 1:
+                    self.fail(e, f"isinstance against the classes {sorted(ids)} (one class of the model's universe is decided)")
+                t = ast.copy_location(ast.Name(id=next(iter(ids)), ctx=ast.Load()), t)
             if not isinstance(t, ast.Name):
-                self.fail(e, "isinstance against something else than one class name")
+                self.fail(e, "isinstance against something else than class names")
             if t.id in env.locals:
                 self.fail(e, f"the class name `{t.id}` is shadowed by a local")
             if t.id == "StreamInterface" and "StreamInterface" not in self.classes:
@@ -1204,6 +1311,9 @@ class Translator:
                 e_some = e2.clone()
                 if o.extra:
                     e_some.memo[o.extra] = lv
+                for nme, w in e2.locals.items():
+                    if w.ty == "OptL" and w.tx == o.tx:
+                        e_some.locals[nme] = V("L", lv)
                 none_b, some_b = (kf, kt) if neg else (kt, kf)
                 return (f"match {o.tx} with\n| None =>\n{ind(block_text(none_b(e2)))}\n"
                         f"| Some {lv} =>\n{ind(block_text(some_b(e_some)))}\nend")
@@ -1264,6 +1374,10 @@ class Translator:
         if isinstance(f, ast.Name):
             if f.id in env.locals:
                 self.fail(e, f"call of the local `{f.id}`")
+            if f.id in self.functions and f.id not in BUILTINS_USED and f.id not in CLASSES:
+                return self.inline_call(e, f.id, self.functions[f.id], False, env, k)
+            if f.id in self.rebound:
+                self.fail(e, f"call of `{f.id}`, which the module binds more than once")
             return self.builtin(e, f.id, env, k)
         if not isinstance(f, ast.Attribute):
             self.fail(e, f"call `{ast.unparse(e)[:60]}`")
@@ -1422,9 +1536,87 @@ class Translator:
             return k(V("None", "tt"), env)
         self.fail(e, f"{mod}.{attr}()")
 
+    def inline_call(self, e, name, fdef, is_method, env, k):
+        """a call of a helper that is not part of the translated interface (a module-level function, a method of the
+        same class): its body is translated at the call site.  The arguments are evaluated first, left to right, and
+        bound to the parameters in a scope of their own; `return` inside the helper continues after the call with the
+        returned value; what the helper's guards established about the arguments holds after the call."""
+        label = ("self." if is_method else "") + name
+        if isinstance(fdef, ast.AsyncFunctionDef) or fdef.decorator_list:
+            self.fail(e, f"call of the async / decorated helper {label}")
+        a = fdef.args
+        if a.vararg or a.kwarg or a.kwonlyargs or a.posonlyargs or a.defaults or a.kw_defaults:
+            self.fail(e, f"helper {label} (line {fdef.lineno}) takes *args / **kwargs / keyword-only / default arguments")
+        params = [p.arg for p in a.args]
+        if is_method:
+            if not params or params[0] != "self":
+                self.fail(e, f"helper {label} (line {fdef.lineno}): first parameter is not `self`")
+            params = params[1:]
+        elif "self" in params:
+            self.fail(e, f"module-level helper {label} has a parameter `self`")
+        if len(params) != len(e.args):
+            self.fail(e, f"{label}() called with {len(e.args)} arguments, it has {len(params)} parameters")
+        if any(r[0] == label for r in self.ctx.returns):
+            self.fail(e, f"recursion in the helper {label} (line {fdef.lineno})")
+        if len(self.ctx.returns) >= 4:
+            self.fail(e, "helpers nested more than 4 deep")
+        for n in ast.walk(fdef):
+            if isinstance(n, (ast.FunctionDef, ast.AsyncFunctionDef, ast.Lambda, ast.ClassDef)) and n is not fdef:
+                self.fail(n, f"nested function / class / lambda in the helper {label}")
+            if isinstance(n, (ast.Yield, ast.YieldFrom, ast.Await, ast.Global, ast.Nonlocal)):
+                self.fail(n, f"{type(n).__name__} in the helper {label}")
+        src = "\n".join(self.lines[fdef.lineno - 1:fdef.end_lineno])
+        rec = (label, fdef.lineno, fdef.end_lineno, hashlib.sha1(src.encode("utf-8")).hexdigest())
+        if rec not in self.ctx.inlined:
+            self.ctx.inlined.append(rec)
+
+        def with_args(args, e1):
+            for v in args:
+                if v.ty in ("EmptyDict", "EnvF", "G"):
+                    self.fail(e, f"argument of kind {v.ty} passed to the helper {label}")
+            caller = e1
+            inner = e1.clone()
+            inner.locals = dict(zip(params, args))
+            inner.noself = not is_method
+            depth = len(self.ctx.returns)
+
+            def back(node, v, e2):
+                """the helper returns: the caller's scope again, with what happened to the state and to the arguments"""
+                del self.ctx.returns[depth:]
+                out = e2.clone()
+                out.locals = dict(caller.locals)
+                out.noself = getattr(caller, "noself", False)
+                for pn, old in zip(params, args):
+                    new = e2.locals.get(pn)
+                    if old.ty in ("Stream", "Dict", "Bound") and new is not None and new.tx != old.tx:
+                        if new.ty not in (old.ty, "Z"):
+                            self.fail(node, f"the helper {label} rebinds its parameter `{pn}`")
+                        for nme, w in caller.locals.items():
+                            if w.ty == old.ty and w.tx == old.tx:
+                                out.locals[nme] = new          # the same object / the same checked argument in the caller
+                if v.ty in ("EmptyDict", "EnvF", "G"):
+                    self.fail(node, f"the helper {label} returns a value of kind {v.ty}")
+                try:
+                    return k(v, out)
+                finally:
+                    self.ctx.returns.append(frame_rec)
+            frame_rec = (label, back, self.ctx.loop, len(self.ctx.loop_ends))
+            self.ctx.returns.append(frame_rec)
+            try:
+                return self.block(self.strip_doc(fdef.body), inner, lambda e2: back(fdef, V("None", "tt"), e2))
+            finally:
+                del self.ctx.returns[depth:]
+        return self.exprs(e.args, env, with_args)
+
     def self_call(self, e, mname, env, k):
         cls = self.ctx.cls
         spec = CLASSES[cls]
+        if mname not in spec["abstract"] and (cls, mname) not in PARAMS:
+            # a private helper method of the class: translated at the call site
+            fdef = self.find_method(cls, mname, allow_decorated=True)
+            if fdef is None:
+                self.fail(e, f"self.{mname}(): not a method of {cls} (inherited methods are not resolved)")
+            return self.inline_call(e, mname, fdef, True, env, k)
         if mname in spec["abstract"]:
             # dynamic dispatch to whatever the subclass defines: a function parameter
             declared = PARAMS[(cls, mname)]
@@ -1495,6 +1687,9 @@ class Translator:
             if env.entry is None:
                 self.fail(node, "a dict item outside its loop")
             e2.entry = (env.entry[0], env.entry[1], f"(with_stream {env.entry[2]} {st})", env.entry[3])
+            for nme, w in env.locals.items():
+                if w.ty == "EStream":           # names of the item's stream see the changed object
+                    e2.locals[nme] = V("EStream", f"(stream_of {e2.entry[2]})")
         else:
             hit = False
             for n, w in env.locals.items():
